@@ -19,13 +19,8 @@ Definition Live (r : ring) (q : list item) : Prop :=
   forall i, i < rsize r ->
     nnth ((rr r + i) mod rsize r) (rbuf r) = Some (if i <? nlen q then nnth i q else None).
 
-Definition Dead (r : ring) : Prop :=
-  0 < rsize r /\ nlen (rbuf r) = rsize r /\ rr r < rsize r /\ rw r < rsize r /\
-  forall i, i < rsize r -> nnth i (rbuf r) = Some None.
-
 Definition R (r : ring) (b : bq) : Prop :=
-  bcap b = rsize r /\ bclosed b = rclosed r /\
-  if rclosed r then Dead r /\ bitems b = [] else Live r (bitems b).
+  bcap b = rsize r /\ bclosed b = rclosed r /\ Live r (bitems b).
 
 Lemma rnew_R size r : 0 < size -> rnew size = Some r -> R r (bnew size).
 Proof.
@@ -115,109 +110,69 @@ Proof.
       * rewrite (mod_lt2 (rr r + 1)) by lia. modsolve.
 Qed.
 
-Lemma dead_of_any r b : R r b -> Dead (rclose r).
+Lemma live_wf r q : Live r q -> 0 < rsize r /\ nlen (rbuf r) = rsize r /\ rr r < rsize r.
+Proof. intros (Hs & Hlen & Hr & _). splits; assumption. Qed.
+
+Lemma live_of_close r q : Live r q -> Live (rclose r) [].
 Proof.
-  intros (Hcap & Hcl & HR). unfold Dead, rclose; cbn [rsize rbuf rr rw rclosed].
-  assert (H : 0 < rsize r /\ nlen (rbuf r) = rsize r /\ rr r < rsize r /\ rw r < rsize r).
-  { destruct (rclosed r).
-    - destruct HR as ((? & ? & ? & ? & ?) & ?). splits; assumption.
-    - destruct HR as (Hs & Hlen & Hr & Hw & Hq & Hsl). splits; try assumption.
-      rewrite Hw. apply N.mod_lt. lia. }
-  destruct H as (Hs & Hlen & Hr & Hw). splits; try assumption.
+  intros HL. destruct (live_wf _ _ HL) as (Hs & Hlen & Hr).
+  unfold Live, rclose; cbn [rsize rbuf rr rw rclosed nlen].
+  splits; try assumption; try lia.
   - now rewrite nlen_map.
-  - intros i Hi. apply nnth_map_const. lia.
+  - rewrite N.add_0_r. symmetry. now apply N.mod_small.
+  - intros i Hi. destruct (N.ltb_spec i 0); [lia|]. apply nnth_map_const.
+    rewrite Hlen. apply N.mod_lt. lia.
 Qed.
 
-Lemma live_of_reset r b : R r b -> Live (rreset r) [].
+Lemma live_of_reset r q : Live r q -> Live (rreset r) [].
 Proof.
-  intros (Hcap & Hcl & HR). unfold Live, rreset; cbn [rsize rbuf rr rw rclosed nlen].
-  assert (H : 0 < rsize r /\ nlen (rbuf r) = rsize r).
-  { destruct (rclosed r).
-    - destruct HR as ((? & ? & ?) & ?). split; assumption.
-    - destruct HR as (Hs & Hlen & _). split; assumption. }
-  destruct H as (Hs & Hlen). splits; try assumption; try lia.
+  intros HL. destruct (live_wf _ _ HL) as (Hs & Hlen & Hr).
+  unfold Live, rreset; cbn [rsize rbuf rr rw rclosed nlen].
+  splits; try assumption; try lia.
   - now rewrite nlen_map.
   - intros i Hi. rewrite N.add_0_l, N.mod_small by lia.
     destruct (N.ltb_spec i 0); [lia|]. apply nnth_map_const. lia.
 Qed.
 
 Lemma step_refines r b o :
-  R r b -> (rclosed r = true -> is_push o = false) ->
-  snd (rstep r o) = snd (bstep b o) /\ R (fst (rstep r o)) (fst (bstep b o)).
+  R r b -> snd (rstep r o) = snd (bstep b o) /\ R (fst (rstep r o)) (fst (bstep b o)).
 Proof.
-  intros HRR Hnp. pose proof HRR as (Hcap & Hcl & HR).
+  intros HRR. pose proof HRR as (Hcap & Hcl & HR).
   destruct o as [x| | |].
-  - (* push *)
-    destruct (rclosed r) eqn:Ecl; [specialize (Hnp eq_refl); discriminate|].
+  - (* push: Push does not look at closed *)
     cbn [rstep bstep]. rewrite Hcap.
     destruct (N.ltb_spec (nlen (bitems b)) (rsize r)) as [Hlt|Hge].
     + destruct (live_push r _ x HR Hlt) as (r' & Hp & HL & Hc & Hsz). rewrite Hp.
       cbn [fst snd]. split; [reflexivity|]. unfold R; cbn [bcap bitems bclosed].
-      rewrite Hc, Ecl, Hsz. splits; try assumption; try reflexivity.
+      rewrite Hc, Hsz. splits; try assumption; try reflexivity.
     + rewrite (live_push_full r _ x HR Hge). cbn [fst snd]. split; [reflexivity|]. exact HRR.
   - (* pull *)
-    cbn [rstep bstep]. destruct (rclosed r) eqn:Ecl.
-    + destruct HR as ((Hs & Hlen & Hr & Hw & Hsl) & Hq). unfold rpull.
-      rewrite (Hsl _ Hr), Ecl, Hq, Hcl. cbn [fst snd]. split; [reflexivity|].
-      exact HRR.
-    + destruct (bitems b) as [|y t] eqn:Eq.
-      * unfold rpull. rewrite (live_head r _ HR), Ecl, Hcl. cbn [fst snd]. split; [reflexivity|]. exact HRR.
-      * destruct (live_pull r y t HR) as (r' & Hp & HL & Hc & Hsz). rewrite Hp.
-        cbn [fst snd]. split; [reflexivity|]. unfold R; cbn [bcap bitems bclosed].
-        rewrite Hc, Ecl, Hsz. splits; try assumption; try reflexivity.
+    cbn [rstep bstep]. destruct (bitems b) as [|y t] eqn:Eq.
+    + unfold rpull. rewrite (live_head r _ HR), Hcl. destruct (rclosed r); cbn [fst snd]; (split; [reflexivity|exact HRR]).
+    + destruct (live_pull r y t HR) as (r' & Hp & HL & Hc & Hsz). rewrite Hp.
+      cbn [fst snd]. split; [reflexivity|]. unfold R; cbn [bcap bitems bclosed].
+      rewrite Hc, Hsz. splits; try assumption; try reflexivity.
   - (* close *)
     cbn [rstep bstep fst snd]. split; [reflexivity|]. unfold R; cbn [bcap bitems bclosed rclose rclosed rsize].
-    splits; try assumption; try reflexivity. eapply dead_of_any; eassumption.
+    splits; try assumption; try reflexivity. eapply live_of_close; eassumption.
   - (* reset *)
     cbn [rstep bstep fst snd]. split; [reflexivity|]. unfold R; cbn [bcap bitems bclosed rreset rclosed rsize].
     splits; try assumption; try reflexivity. eapply live_of_reset; eassumption.
 Qed.
 
-(* op lists in which nothing is pushed between a Close and the next Reset *)
-Fixpoint ok_ops (closed : bool) (ops : list op) : bool :=
-  match ops with
-  | [] => true
-  | OPush _ :: t => negb closed && ok_ops closed t
-  | OPull :: t => ok_ops closed t
-  | OClose :: t => ok_ops true t
-  | OReset :: t => ok_ops false t
-  end.
-
-Lemma rstep_closed r o :
-  rclosed (fst (rstep r o)) =
-  match o with OClose => true | OReset => false | _ => rclosed r end.
+Lemma run_refines ops : forall r b, R r b -> rrun r ops = brun b ops.
 Proof.
-  destruct o; cbn [rstep]; try reflexivity.
-  - unfold rpush. destruct (nnth (rw r) (rbuf r)) as [[?|]|]; try reflexivity.
-    destruct (rsize r =? 0); reflexivity.
-  - unfold rpull. destruct (nnth (rr r) (rbuf r)) as [[?|]|]; try reflexivity.
-    + destruct (rsize r =? 0); reflexivity.
-    + destruct (rclosed r) eqn:E; cbn [fst]; exact E.
-Qed.
-
-Lemma run_refines ops : forall r b,
-  R r b -> ok_ops (rclosed r) ops = true -> rrun r ops = brun b ops.
-Proof.
-  induction ops as [|o t IH]; intros r b HR Hok; [reflexivity|].
+  induction ops as [|o t IH]; intros r b HR; [reflexivity|].
   cbn [rrun brun].
-  assert (Hnp : rclosed r = true -> is_push o = false).
-  { intros E. rewrite E in Hok. destruct o; cbn in Hok |- *; try reflexivity. discriminate. }
-  destruct (step_refines r b o HR Hnp) as [Hout HR'].
+  destruct (step_refines r b o HR) as [Hout HR'].
   destruct (rstep r o) as [r' x] eqn:Er. destruct (bstep b o) as [b' y] eqn:Eb.
-  cbn [fst snd] in *. subst y. f_equal. apply IH; [assumption|].
-  pose proof (rstep_closed r o) as Hc. rewrite Er in Hc. cbn [fst] in Hc. rewrite Hc.
-  destruct o; cbn [ok_ops] in Hok; try assumption.
-  apply andb_true_iff in Hok. tauto.
+  cbn [fst snd] in *. subst y. f_equal. now apply IH.
 Qed.
 
+(* for EVERY operation list: pushes after Close included *)
 Theorem ring_refines_bq size r ops :
-  0 < size -> rnew size = Some r -> ok_ops false ops = true ->
-  rrun r ops = brun (bnew size) ops.
-Proof.
-  intros Hs Hn Hok. apply run_refines.
-  - now apply rnew_R.
-  - unfold rnew in Hn. destruct (pow2_ok size); [|discriminate]. injection Hn as <-. exact Hok.
-Qed.
+  0 < size -> rnew size = Some r -> rrun r ops = brun (bnew size) ops.
+Proof. intros Hs Hn. apply run_refines. now apply rnew_R. Qed.
 
 (* The spec itself is a bounded FIFO: characterise what it outputs. *)
 Lemma bq_push_refused_iff_full b x :
@@ -227,9 +182,9 @@ Proof.
 Qed.
 
 (* never panics for a positive size *)
-Lemma no_panic ops : forall r b, R r b -> ok_ops (rclosed r) ops = true -> ~ In RPanic (rrun r ops).
+Lemma no_panic ops : forall r b, R r b -> ~ In RPanic (rrun r ops).
 Proof.
-  intros r b HR Hok. rewrite (run_refines ops r b HR Hok). clear.
+  intros r b HR. rewrite (run_refines ops r b HR). clear.
   revert b. induction ops as [|o t IH]; intros b; cbn [brun]; [tauto|].
   destruct (bstep b o) as [b' y] eqn:E. intros [H|H]; [|eapply IH; eassumption].
   subst y. destruct o; cbn [bstep] in E.
